@@ -5,7 +5,7 @@ import string
 RULE = ("record lists of length 1..200 (log-uniform), names of 0..40 printable characters - ASCII 32..126 (any, including leading "
         "'>' ';' and spaces) and, in a quarter of the names, multi-byte characters (Latin-1, Greek, CJK, emoji) - plus names of "
         "1 KiB and 70 KiB, sequences of 0..300000 ASCII letters (log-uniform, plus fixed cases at 65535/65536/65537/70000/300000 "
-        "letters on one line), laid out by Lean's layoutFasta with per-record line lengths 1..(beyond the sequence), blank "
+        "letters on one line, and CR LF files with one line of k*65536-2..k*65536 letters), laid out by Lean's layoutFasta with per-record line lengths 1..(beyond the sequence), blank "
         "and ';' lines before/after the header and between sequence lines, LF or CRLF per record, with or without final "
         "newline; read through Parse, Read (file) and ReadGz (Go's gzip writer, one member or two concatenated members); "
         "Build/Write round trips; ParseConcurrent / ReadConcurrent / ReadGzConcurrent on channel capacities 0..1000 with a "
@@ -197,6 +197,21 @@ def cases(seed, tier):
     if not quick:
         for cap in (0, 1, 5):   # a slow consumer: one stall of 1.5 s
             yield stream_case(r, rec_list(r, 5000, nmax=12), cap=cap, src="mem", stall=2500)
+    # CR LF files whose single sequence line ends right at a multiple of 64 KiB: with k*65536-1 letters the '\r' is the
+    # last byte of a 64 KiB piece (a scanner / split function that cuts long lines into buffer-sized pieces before it
+    # has seen the line end would keep it); lengths around it as well; Parse and ParseConcurrent
+    ks = (1, 2) if quick else (1, 2, 3, 4)
+    for k in ks:
+        for d in (-2, -1, 0):
+            n = k * 65536 + d           # letters: k*65536-1 puts the CR at offset k*65536-1 of the line
+            recs = [("crlf%d" % n, seq(r, n)), ("next", seq(r, 7))]
+            fields = [recs[0][0], recs[0][1], "1", str(n + 10), "", "", "", "",
+                      recs[1][0], recs[1][1], "1", "59", "", "", "", ""]
+            yield ["layout", "plain", "1", "2"] + fields
+            yield ["stream", "mem", str(r.choice([0, 1, 1000])), str(r.randint(0, 2 ** 31)), "0", "1", "2"] + fields
+            if not quick:
+                yield ["layout", r.choice(["file", "gz"]), "0", "2"] + fields
+                yield ["stream", r.choice(["pipe", "file", "gz2"]), "2", str(r.randint(0, 2 ** 31)), "300", "0", "2"] + fields
     yield build_case(r, [("gz", seq(r, 300000))], "gz")
     yield build_case(r, [("gz2", seq(r, 150000)), ("m2", seq(r, 150000))], "gz2")
     yield build_case(r, [("file", seq(r, 200000)), ("f2", "")], "file")
